@@ -280,3 +280,19 @@ func TestStreamDet(t *testing.T) {
 	}
 	out.write(t, "det")
 }
+
+// TestStreamGenesis runs the export / re-import comparison (C16).
+func TestStreamGenesis(t *testing.T) {
+	seed := uint64(envInt("VERIF_SEED", 1))
+	cases := envInt("VERIF_CASES", 3)
+	nops := envInt("VERIF_OPS", 60)
+	out := &streamOut{stats: map[string]int{}}
+	for i := 0; i < cases; i++ {
+		r := &Rng{s: seed*1000003 + uint64(i)*7919 + 111}
+		w := NewWorld(t, 3)
+		g := &GenesisGen{w: w, r: r, stats: map[string]int{}}
+		g.Run(nops, i)
+		out.add(w, g.stats)
+	}
+	out.write(t, "genesis")
+}
